@@ -3,7 +3,13 @@ package main
 // selftest.go — positive fixtures for zero-expected-count rules: each must be flagged on every run,
 // otherwise the run exits 2 ("checker broken") without a verdict on /repo.
 
-import "fmt"
+import (
+	"fmt"
+	"go/ast"
+	"go/parser"
+	"go/token"
+	"go/types"
+)
 
 type selfTest struct {
 	name string
@@ -23,4 +29,49 @@ func runSelfTests(verbose bool) int {
 		}
 	}
 	return rc
+}
+
+// typecheckFixture parses and type-checks a self-contained Go source (no imports).
+func typecheckFixture(src string) (*types.Info, *ast.File, error) {
+	fset := token.NewFileSet()
+	f, err := parser.ParseFile(fset, "fixture.go", src, 0)
+	if err != nil {
+		return nil, nil, err
+	}
+	info := &types.Info{Types: map[ast.Expr]types.TypeAndValue{}, Defs: map[*ast.Ident]types.Object{}, Uses: map[*ast.Ident]types.Object{},
+		Selections: map[*ast.SelectorExpr]*types.Selection{}, Implicits: map[ast.Node]types.Object{}, Scopes: map[ast.Node]*types.Scope{}}
+	conf := types.Config{}
+	if _, err := conf.Check("fixture", fset, []*ast.File{f}, info); err != nil {
+		return nil, nil, err
+	}
+	return info, f, nil
+}
+
+func init() {
+	selfTests = append(selfTests, selfTest{"R15-double-advance", func() error {
+		info, f, err := typecheckFixture(`package fixture
+func trimBad(ret []int) []int {
+	for i := 0; i < len(ret); i++ {
+		if ret[i] != 0 {
+			break
+		}
+		ret = ret[1:]
+	}
+	return ret
+}
+func trimGood(ret []int) []int {
+	for len(ret) > 0 && ret[0] == 0 {
+		ret = ret[1:]
+	}
+	return ret
+}`)
+		if err != nil {
+			return err
+		}
+		loops, fnd := r15Scan(info, f)
+		if loops != 2 || len(fnd) != 1 {
+			return fmt.Errorf("expected 2 re-slicing loops and exactly 1 finding, got %d / %d", loops, len(fnd))
+		}
+		return nil
+	}})
 }
